@@ -107,13 +107,16 @@ def run(ctx):
     T34, T42, U34 = "2,3,4,5", "3,5", "2,3,4;3,4,5,6"
     # (t42s0q: the quick-tier cut of t42s0 - height-5 blocks mined by node 3 only, 11 packets)
     tl = 6000   # thorough: a seeded sample of every term graph (the graphs of one-term universes are replayed completely)
-    cfgs += [("t34s1", 3, 1, T34, 1500 if q else tl), ("t42s0q" if q else "t42s0", 4, 0, T42, 1500 if q else tl), ("u34s0", 3, 0, U34, 1000 if q else tl)]
+    # (t34s4: the node is a deputy of the NEW term only - in the interim heights it is elected already but has no vote yet;
+    #  t42s3: four deputies and the node among them - a block can arrive carrying the node's own confirm)
+    cfgs += [("t34s1", 3, 1, T34, 1500 if q else tl), ("t42s0q" if q else "t42s0", 4, 0, T42, 1500 if q else tl), ("u34s0", 3, 0, U34, 1000 if q else tl),
+             ("t34s4", 3, 4, T34, 1000 if q else tl), ("t42s3", 4, 3, T42, 1000 if q else tl)]
     if not q:
-        cfgs += [("t34s0", 3, 0, T34, tl), ("t42s3", 4, 3, T42, tl), ("u34s2", 3, 2, U34, tl), ("t34p3s0", 3, 0, T34, 0)]
+        cfgs += [("t34s0", 3, 0, T34, tl), ("u34s2", 3, 2, U34, tl), ("t34p3s0", 3, 0, T34, 0)]
     only = os.environ.get("VERIF_C03_ONLY")   # debugging aid: run the named configurations only (any tier), e.g. "t42s3,u34s2"
     if only:
         dl = 2500 if q else tl
-        allc = {c[0]: c for c in [("t34s0", 3, 0, T34, dl), ("t42s0", 4, 0, T42, dl), ("t42s3", 4, 3, T42, dl), ("u34s2", 3, 2, U34, dl), ("t34p3s0", 3, 0, T34, dl)] + cfgs}
+        allc = {c[0]: c for c in [("t34s0", 3, 0, T34, dl), ("t42s0", 4, 0, T42, dl), ("u34s2", 3, 2, U34, dl), ("t34p3s0", 3, 0, T34, dl)] + cfgs}
         cfgs = [allc[n] for n in only.split(",")]
     # larger design-side configurations (thorough, no replay): 4 deputies in one term; the term boundary with every miner
     # assignment and the full packet family (old-only / new-only / both in every mix)
